@@ -176,7 +176,12 @@ type c16BCase struct {
 	// Late: the operator changes stream_from after the manager's first iteration (the host is already
 	// in the manager's registry) instead of before it
 	Late bool `json:"stream_from_changed_after_first_iteration,omitempty"`
+	// FailRead >= 0: this read of the coordination service in the first iteration fails with an error
+	// the client does not retry (b = 1)
+	FailRead *int `json:"failing_read_of_first_iteration,omitempty"`
 }
+
+var c16BPoints []sim.Point
 
 func c16BRun(r *vt.Run, c c16BCase) {
 	r.Eval()
@@ -261,7 +266,14 @@ func c16BRun(r *vt.Run, c c16BCase) {
 		for i := 0; i < 4; i++ {
 			h.InjectHealth()
 			np := len(w.Panics)
+			base := len(w.Trace)
+			if i == 0 && c.FailRead != nil {
+				w.Plan[base+*c.FailRead] = sim.Deviation{At: base + *c.FailRead, Kind: sim.DevErr, Arg: 1}
+			}
 			h.Tick(a)
+			if i == 0 {
+				c16BPoints = append([]sim.Point(nil), w.Trace[base:]...)
+			}
 			if len(w.Panics) > np || len(w.Unknown) > 0 {
 				r.Violate("C16/0-engine", fmt.Sprintf("panics=%v at %s unknown=%v; case %+v", w.Panics, h.PanicWhere(), w.Unknown, c), c)
 				return
@@ -288,6 +300,10 @@ func c16BRun(r *vt.Run, c c16BCase) {
 		r.Outcome(fmt.Sprintf("moves=%d source=%s", min(moves, 2), c1.Source))
 		// the configured source is healthy and has everything the replica has: after the iterations the
 		// replica streams from it (the configuration the operator wrote is the one that counts)
+		// the configured source is healthy and nothing was re-configured: the replica is left where it is
+		if c.Reconf == "" && c.H2 == gHealthy && moves > 0 {
+			r.Violate("C16/3-stays-on-its-healthy-configured-source", fmt.Sprintf("c1 streams from its configured source h2, which is healthy, and was re-pointed (now on %s); case %+v", c1.Source, c), c)
+		}
 		if c.Reconf != "" && (c.Relation == "behind" || c.Relation == "equal") && c1.Source != c.Reconf {
 			r.Violate("C16/3-streams-from-the-configured-source-when-it-is-healthy", fmt.Sprintf("stream_from of c1 is %s, which is healthy and contains c1's transactions, but after 4 iterations c1 replicates from %s; case %+v", c.Reconf, c1.Source, c), c)
 		}
@@ -604,6 +620,22 @@ func checkC16(r *vt.Run) {
 							c.Late = true
 							r.Crumb(c16Case{B: &c})
 							c16BRunWrap(r, c)
+						}
+						if rc == "" && h2 == gHealthy && run && !prog && (rel == "behind" || rel == "equal") {
+							// one failing read of the coordination service at every read of the first iteration
+							c.Late = false
+							pts := append([]sim.Point(nil), c16BPoints...)
+							for i, p := range pts {
+								if p.Kind != "zk" || p.Mut || p.Fails {
+									continue
+								}
+								i := i
+								cc := c
+								cc.FailRead = &i
+								r.Crumb(c16Case{B: &cc})
+								c16BRunWrap(r, cc)
+								r.Count("part_b_failing_reads")
+							}
 						}
 					}
 				}
